@@ -1,5 +1,6 @@
 #!/bin/bash
 # confirm_seed.sh <ID> [<out-dir>] : confirm a sub-agent's seeded change in its scratch worktree /tmp/mut/<ID>:
+#   (DEMO_RUSTFLAGS: flags for building the demonstration only, e.g. "--cfg hctl_verif")
 #   with the change: the 55 existing tests pass and the demonstration fails; without it: the demonstration passes.
 ID=$1; OUT=${2:-/tmp/mut${ROUND:-}/$ID-out}; WT=/tmp/mut${ROUND:-}/$ID; export CARGO_TARGET_DIR=/tmp/mut${ROUND:-}/$ID-target CARGO_NET_OFFLINE=true
 cd $WT || exit 2
@@ -9,9 +10,9 @@ mkdir -p tests; cp $OUT/demo/*.rs tests/ 2>/dev/null
 DEMO=$(ls $OUT/demo/*.rs 2>/dev/null | head -1 | xargs -n1 basename | sed 's/\.rs$//')
 cargo test --offline --lib --bins 2>&1 | grep -E "^test result" > $OUT/confirm_suite.txt
 SUITE=$(grep -c "55 passed; 0 failed" $OUT/confirm_suite.txt)
-cargo test --offline --test $DEMO > $OUT/confirm_demo_with.txt 2>&1; WITH=$?
+RUSTFLAGS="${DEMO_RUSTFLAGS:-}" cargo test --offline --test $DEMO > $OUT/confirm_demo_with.txt 2>&1; WITH=$?
 git apply -R $OUT/patch.diff
-cargo test --offline --test $DEMO > $OUT/confirm_demo_without.txt 2>&1; WITHOUT=$?
+RUSTFLAGS="${DEMO_RUSTFLAGS:-}" cargo test --offline --test $DEMO > $OUT/confirm_demo_without.txt 2>&1; WITHOUT=$?
 rm -rf tests/$DEMO.rs; rmdir tests 2>/dev/null; git checkout -q -- . ; rm -rf $CARGO_TARGET_DIR
 echo "CONFIRM $ID: suite_55_pass=$SUITE demo_with_change_exit=$WITH demo_without_change_exit=$WITHOUT"
 [ "$SUITE" = "1" ] && [ "$WITH" != "0" ] && [ "$WITHOUT" = "0" ]
